@@ -214,6 +214,29 @@ class HoldAnalysis(RuleAnalysis):
             t = t.operand
         name = None
         empty_when_false = False
+        # a count compared with a constant, in any spelling: which side means "nothing was read" (count <= 0)?
+        from ..norm import cmp_canon
+        cc = cmp_canon(None, t) if isinstance(t, ast.Compare) and not (isinstance(t.comparators[0], ast.Constant) and t.comparators[0].value is None) else None
+        if cc is not None and len([k for k in cc[0] if k]) == 1 and not self.empty_is_data:
+            (var, coef), const = next(kv for kv in cc[0].items() if kv[0]), cc[0].get("", 0)
+            var = var[4:-1] if var.startswith("len(") else var
+            side = None  # True: the test being true means empty ; False: the test being false means empty
+            if cc[1] == ">" and coef == 1 and const in (0, ):
+                side = False      # x > 0
+            elif cc[1] == ">=" and coef == 1 and const == -1:
+                side = False      # x >= 1
+            elif cc[1] == ">=" and coef == -1 and const == 0:
+                side = True       # x <= 0
+            elif cc[1] == ">" and coef == -1 and const == 1:
+                side = True       # x < 1
+            elif cc[1] == "==" and const == 0:
+                side = True       # x == 0
+            elif cc[1] == "!=" and const == 0:
+                side = False      # x != 0
+            if side is not None and var in held:
+                empty, full = [held - {var}], [held]
+                tr, fl = (empty, full) if side else (full, empty)
+                return (fl, tr) if neg else (tr, fl)
         if isinstance(t, ast.Name):
             name, empty_when_false = t.id, True  # `if x:` false => x is empty / None
         elif isinstance(t, ast.Compare) and len(t.ops) == 1:
